@@ -26,6 +26,32 @@ def enc_one(ctx, rng, stream, key, ctr, data):
     ctx.case(stream, key=(hx(key), ctr, hx(data)), sample={"len": len(data), "ctr": ctr, "pad": len(pad)})
 
 
+def marked_payload(rng, key, ctr, target, block, n):
+    """an n-byte payload (n >= 14 + 16*block) whose encrypted response has `target` at the start of cipher block `block`
+    (AES-CBC, zero IV, plaintext = 2-byte big-endian counter + payload + padding)"""
+    from Crypto.Cipher import AES
+    ecb = AES.new(key, AES.MODE_ECB)
+    data = bytearray(rb(rng, n))
+    plain0 = ctr.to_bytes(2, "big") + bytes(data[:14])
+    prev = bytes(16) if block == 0 else ecb.encrypt(plain0)
+    off = 0 if block == 0 else 14           # payload offset of the searched plaintext block's free bytes
+    lo = 2 if block == 0 else 0             # block 0 starts with the counter
+    base = bytearray(plain0 if block == 0 else data[14:30])
+    N = 1 << 18
+    blocks = bytearray()
+    for i in range(N):
+        base[lo:lo + 3] = i.to_bytes(3, "big")
+        blocks += bytes(a ^ b for a, b in zip(base, prev)) if block else base
+    ct = ecb.encrypt(bytes(blocks))
+    j = ct.find(target)
+    while j != -1 and j % 16:
+        j = ct.find(target, j + 1)
+    if j == -1:
+        return None
+    data[off:off + 3] = (j // 16).to_bytes(3, "big")
+    return bytes(data)
+
+
 def dec_one(ctx, rng, stream, key, ctr, data):
     pad = rb(rng, (16 - (len(data) + 2) % 16) % 16)
     pkt = ctx.driver.ask(f"spec_v3_encode key={hx(key)} type=3 ctr={ctr} data={hx(data)} pad={hx(pad)}")
@@ -159,6 +185,21 @@ def run(ctx):
             dec_one(ctx, rng, "decode_v2_like_payload", key, 0, b"\x5a\x5a" + rb(rng, n))
             dec_one(ctx, rng, "decode_v2_like_payload", key, 0, b"\x83\x70" + rb(rng, n))
             enc_one(ctx, rng, "encode_v2_payload", key, rng.randrange(4096), inner)
+    # GENUINE responses whose ciphertext happens to begin (first or second cipher block) with bytes that mean something to
+    # some layer: the V3 start marker 83 70, the V2 marker 5a 5a, the magic 20, zeros.  One in 65536 responses does; they are
+    # found by searching the plaintext space with the cipher primitive, then encoded by the independent Spec encoder.
+    if ctx.driver:
+        for target in ((b"\x83\x70", b"\x5a\x5a") if not thorough else (b"\x83\x70", b"\x5a\x5a", b"\x83\x83", b"\x20\x03", b"\x00\x00", b"\xff\xff", b"\x70\x83")):
+            for block in (0, 1):
+                for _ in range(1 if not thorough else 4):
+                    key = rb(rng, 32)
+                    ctr = rng.choice([0, 1, 255, 4095, rng.randrange(65536)])
+                    data = marked_payload(rng, key, ctr, target, block, rng.choice([14, 20, 30, 46, 77]) + 16 * block)
+                    if data is None:
+                        ctx.count("marker_in_ciphertext:not-found")
+                        continue
+                    pkt = dec_one(ctx, rng, "marker_in_ciphertext", key, ctr, data)
+                    ctx.count("marker_in_ciphertext:" + ("hit" if pkt[6 + 16 * block:8 + 16 * block] == target else "miss"))
     for _ in range(8 if not thorough else 100):
         session(ctx, rng, rng.randrange(2, 7))
     if thorough:
